@@ -7,7 +7,7 @@ import random
 import re
 from typing import Any, List, Optional
 
-from .listing import SInst, ALL_MNEMONICS, ALL_REGS, IMMS, rand_inst_body, rand_operand
+from .listing import SInst, ALL_MNEMONICS, ALL_REGS, IMMS, REG_FAMILIES, rand_inst_body, rand_operand
 
 META = set("[]+*().$^?{}|\\")
 HEXH = re.compile(r"^[0-9a-fA-F]+h$")
@@ -41,6 +41,7 @@ class Feat:
         self.zero_min = 0.0        # probability that a times value gets min 0
         self.excess_ops = 0.0      # operand items beyond the instruction's operand count
         self.any = 0.0             # the shipped @any macro as mnemonic / operand / deref value
+        self.odd_names = 0.0       # empty operand names, digit-only names with leading zeros
         self.max_depth = 2
         self.max_odepth = 2        # nesting depth of operand-level groups
         self.max_spine = 4
@@ -103,8 +104,12 @@ class RuleGen:
                     name = sub
             elif r > 0.65:
                 name = self.perturb(name)
+        if re.fullmatch(r"[0-9]+", name) and self.rng.random() < self.feat.odd_names * 4:
+            return "0" + name         # a quoted digit-only name with a leading zero is a TEXT ("08" is not 8): found only where it occurs
         if re.fullmatch(r"[1-9][0-9]*|0", name) and self.rng.random() < 0.5:
             return int(name)
+        if self.rng.random() < self.feat.odd_names:
+            return ""                 # the empty name occurs in every operand (and equals only an empty one): a positional placeholder
         return name
 
     # ---------------------------------------------------------------- operand nodes
@@ -130,13 +135,22 @@ class RuleGen:
                 return body
             return int(body) if re.fullmatch(r"[0-9]+", body) and body != "0" else v
         d["main_reg"] = reg(a)
+        capfield = None
+        if self.feat.regfam and self.rng.random() < self.feat.regfam:
+            # a register-family capture as base or index register (definition or later occurrence)
+            capfield = self.rng.choice(["main_reg"] + (["register_multiplier"] if b is not None else []))
+            node = self.regfam_node(a if capfield == "main_reg" else b)
+            if node is None:
+                capfield = None
+            elif capfield == "main_reg":
+                d["main_reg"] = node
         if k is not None:
             d["constant_offset"] = const(k)
         if b is not None:
-            d["register_multiplier"] = reg(b)
+            d["register_multiplier"] = node if capfield == "register_multiplier" else reg(b)
         if c is not None:
             d["constant_multiplier"] = const(c)
-        if self.rng.random() < 0.25:
+        if self.rng.random() < 0.25 and capfield != "main_reg":
             alts = [d["main_reg"], self.rng.choice(["rsp", "%rbp", "rdi", "%r9"])]
             if self.rng.random() < 0.35:
                 alts = [{"$or": [alts[0], "%r15"]}, alts[1]]        # an operator nested in the field's operator
@@ -147,6 +161,27 @@ class RuleGen:
         items = list(d.items())
         self.rng.shuffle(items)
         return {"$deref": dict(items)}
+
+    def near_twin(self, node):
+        """A copy of a dict-shaped node (item with operands, $deref, group) that differs from it in ONE leaf at least two levels
+        down - same name, same direct children names, other content. Returns None if the node has no such leaf."""
+        if not isinstance(node, dict):
+            return None
+        twin = copy.deepcopy(node)
+        leaves = [(p, v) for p, v in _walk(twin) if len(p) >= 2 and isinstance(v, str) and clean(v) and p[-1] != "times"
+                  and not (isinstance(p[-1], str) and p[-1] in ("min", "max"))]
+        if not leaves:
+            return None
+        p, v = self.rng.choice(leaves)
+        fam = next((f for f in REG_FAMILIES if v in f or "%" + v in f), None)
+        new = self.perturb(v)
+        if fam:
+            other = self.rng.choice([r for r in fam if r.lstrip("%") != v.lstrip("%")] or [v])
+            new = other if v.startswith("%") else other.lstrip("%")
+        if new == v:
+            return None
+        _set(twin, p, new)
+        return twin
 
     def shuffled(self, xs):
         xs = list(xs)
@@ -193,6 +228,9 @@ class RuleGen:
                 alts = [good] + [self.decoy_operand() for _ in range(rng.randint(1, 2))]
                 if rng.random() < 0.25:
                     alts.append({"$and": [self.decoy_operand()]})
+                tw = self.near_twin(good)
+                if tw is not None and rng.random() < 0.5:
+                    alts.append(tw)
                 return {"$or": self.shuffled(alts)}
             return {"$and": [good]}
         if depth < 1 and rng.random() < f.onots:
@@ -205,6 +243,10 @@ class RuleGen:
         rng = self.rng
         own = self.op_name(field) if rng.random() < 0.3 else None
         d = own if own is not None else self.decoy_operand()
+        if self.ocaps and rng.random() < 0.35:
+            d = rng.choice(self.ocaps)[0]          # a capture bound earlier as the argument: rejects exactly the bound text
+        elif self.regcaps and rng.random() < 0.25:
+            d = rng.choice(self.regcaps)[0] + ".64"
         r2 = rng.random()
         if r2 < 0.35:
             d = {"$or": self.shuffled([d, self.decoy_operand()] + ([self.decoy_operand()] if rng.random() < 0.4 else []))}
@@ -402,6 +444,9 @@ class RuleGen:
                 if good is None:
                     return None
                 alts = [good[0]] + [self.decoy_item() for _ in range(rng.randint(1, 2))]
+                tw = self.near_twin(good[0])
+                if tw is not None and rng.random() < 0.5:
+                    alts.append(tw)           # same shape as the good alternative, different two levels down
                 if rng.random() < 0.3 and left >= 2:
                     two = self.seq_for(idx, 2, depth + 1)
                     if two:
@@ -426,6 +471,8 @@ class RuleGen:
             x = self.decoy_item()
             if rng.random() < 0.25:
                 x = self.item_for(idx, allow_times=False)[0]     # the argument matches here: the $not must reject
+            elif self.icaps and rng.random() < 0.4:
+                x = rng.choice(self.icaps)[0]                     # an instruction capture bound earlier as the argument
             r3 = rng.random()
             if r3 < 0.3:
                 x = {"$and": [x, self.decoy_item()]}
